@@ -37,8 +37,9 @@ def run(cx):
     cx.rule("C13.R1", "per-connection state is private to the job: the closure given to the pool captures only the accepted stream and the shared handler; everything passed to handle() besides the handler derives from that stream or from values created inside this invocation")
     cx.rule("C13.R2", "the shared service is immutable through &self: VarlinkService/ServiceInfo contain no interior-mutability type (stopping at the registered dyn Interface), and handle/call/call_upgraded take &self")
     cx.rule("C13.R3", "no lock is held while a connection is served: no guard acquired before the job call in the pool worker is alive at the job, and the acceptor holds no guard across accept()")
+    cx.rule("C13.R5", "a worker that died is never counted as idle: the pool's busy counter is decremented only in the worker loop, behind the normal return of the job (no Drop impl or helper releases the slot during unwinding) — the growth test `busy >= workers` then still starts a replacement for a worker whose job panicked")
     cx.rule("C13.R4", "a connection's end ends its job: reader and writer handed to handle() are the two halves of the captured stream, and end-of-input on that stream leaves the worker loop")
-    r1(cx); r2(cx); r3(cx); r4(cx)
+    r1(cx); r2(cx); r3(cx); r4(cx); r5(cx)
 
 
 def r1(cx):
@@ -184,3 +185,31 @@ def r4(cx):
             detail = "after fill_buf() reported end of input the loop can call handle() again"
     # fill_buf error leaves as well
     cx.check(okk, "C13.R4", "varlink:worker:eof-ends-the-job", "%s %s" % (fb[0].sp, w.path), detail, note_ok="Ok([]) -> break (and Err(_) -> break)")
+
+
+def r5(cx):
+    from .C14 import counter_ops
+    n = 0
+    wk = cx.mir.one("varlink", POOLW)
+    for b in cx.mir.bodies("varlink"):
+        if b.promoted is not None or "server.rs" not in b.sp: continue
+        du = DefUse(b)
+        decs = [s for k, s in counter_ops(b, du) if k == "dec"]
+        if not decs: continue
+        cx.saw(b)
+        for i, d in enumerate(decs):
+            n += 1
+            key = "varlink:%s:busy-decrement#%d" % (b.path, i)
+            site = "%s %s" % (d.sp, b.path)
+            if b.path != wk.path:
+                cx.bad("C13.R5", key, site, "the busy counter is released in %s%s: a job that panics kills its worker thread, yet the slot is given back, so the pool counts the dead worker as idle and later connections wait for a worker that no longer exists" % (b.path, " (a destructor, which also runs during unwinding)" if "Drop" in b.path else ""))
+                continue
+            cfg = Cfg(b, unwind=True)
+            jobs = [t for t in b.calls("=call_box")] or [t for t in b.calls() if t.callee.indirect]
+            if not jobs: raise AnchorMissing("pool worker: job call")
+            unwind_targets = [dst for lab, dst in cfg.succ[jobs[0].bb] if lab == "unwind"]
+            on_unwind = any(d.bb in cfg.reach(u) for u in unwind_targets)
+            ncfg = Cfg(b)
+            cx.check(not on_unwind and jobs[0].target is not None and d.bb in ncfg.reach(jobs[0].target), "C13.R5", key, site,
+                     "the decrement is reachable from the job's unwind edge (or not from its normal return)", note_ok="behind the job's normal return only")
+    cx.floor("C13.R5", "decrements of the busy counter", n, 1)
